@@ -7,6 +7,7 @@ import (
 	"crypto/ed25519"
 	"fmt"
 	"sort"
+	"strings"
 
 	"github.com/New-JAMneration/JAM-Protocol/internal/keystore"
 	"github.com/New-JAMneration/JAM-Protocol/internal/safrole"
@@ -110,6 +111,7 @@ type genesis struct {
 	sharedBlob        []byte // solicited by every service of the genesis state
 	permutedSets      bool
 	specialKeys       int // storage entries whose state key has a chosen second octet
+	populous          int // number of additional (inert) services of a populous genesis state
 	specialIDs   int // services whose identifier comes from the pool of special magnitudes / octet patterns
 }
 
@@ -266,6 +268,11 @@ func mkGenesis(t *sim.Tape) *genesis {
 	st.Chi = types.Privileges{Assign: make(types.ServiceIDList, types.CoresCount), AlwaysAccum: types.AlwaysAccumulateMap{}}
 	st.Delta = types.ServiceAccountState{}
 	nSvc := t.Range(1, 3, "nsvc")
+	// a POPULOUS state: hundreds of services, hundreds of entries under one service, values and preimages of tens of
+	// KiB, long storage keys, long judgement and statistics lists. Nothing in it takes part in the history; it is there
+	// so that every export, import, root computation, key-value walk and cache of the node under test meets counts
+	// and sizes beyond what the two or three active services produce (batch sizes, 8/16-bit counters, buffer reuse)
+	populous := t.Prob(1, 8, "populous_state")
 	// service identifiers of every magnitude and octet pattern: state keys interleave the identifier's octets
 	// with hash octets (255 makes a service's storage keys look like service-info keys up to the trailing
 	// octets), and code that derives cache keys or orderings from an identifier must not depend on its size
@@ -361,6 +368,17 @@ func mkGenesis(t *sim.Tape) *genesis {
 			g.solicited[id] = append(g.solicited[id], blob)
 			ac.LookupDict[types.LookupMetaMapkey{Hash: h256(blob), Length: types.U32(len(blob))}] = types.TimeSlotSet{}
 		}
+		if populous && i == 0 {
+			for k := 0; k < []int{40, 255, 256, 300}[t.Choose(4, "populous_storage_entries")]; k++ {
+				ac.StorageDict[fmt.Sprintf("bulk-%d", k)] = types.ByteSequence(fmt.Sprintf("bulk-value-%d", k))
+			}
+			big := bytes.Repeat([]byte{0xB1, 0x6B, 0x10, 0xB5}, []int{1024, 16384, 16385, 25000}[t.Choose(4, "populous_value_words")])
+			ac.StorageDict["big-value"] = types.ByteSequence(big)
+			ac.StorageDict[strings.Repeat("long-storage-key/", 1+t.Choose(40, "populous_key_reps"))] = types.ByteSequence("v")
+			blob := append([]byte(fmt.Sprintf("big-preimage-of-%d", id)), big...)
+			ac.PreimageLookup[h256(blob)] = blob
+			ac.LookupDict[types.LookupMetaMapkey{Hash: h256(blob), Length: types.U32(len(blob))}] = types.TimeSlotSet{types.TimeSlot(1<<32 - 1)}
+		}
 		var items uint64
 		var octets uint64
 		for k, v := range ac.StorageDict {
@@ -381,6 +399,42 @@ func mkGenesis(t *sim.Tape) *genesis {
 			ac.ServiceInfo.MinMemoGas = []types.Gas{10, 1 << 32, 1<<64 - 1}[t.Choose(3, "memo_gas")]
 		}
 		st.Delta[id] = ac
+	}
+	if populous {
+		g.populous = []int{40, 130, 257, 300}[t.Choose(4, "populous_services")]
+		noCode := h256([]byte("code of an inert service: never provided"))
+		for i := 0; i < g.populous; i++ {
+			id := types.ServiceID(500000 + 251*i) // crosses octet boundaries of the identifier
+			if _, taken := st.Delta[id]; taken {
+				continue
+			}
+			ac := types.ServiceAccount{PreimageLookup: types.PreimagesMapEntry{}, LookupDict: types.LookupMetaMapEntry{}, StorageDict: types.Storage{}}
+			blob := []byte(fmt.Sprintf("preimage-of-inert-service-%d", i))
+			ac.PreimageLookup[h256(blob)] = blob
+			ac.LookupDict[types.LookupMetaMapkey{Hash: h256(blob), Length: types.U32(len(blob))}] = types.TimeSlotSet{types.TimeSlot(i)}
+			items, octets := uint64(2), 81+uint64(len(blob))
+			if i%7 == 0 {
+				k, v := fmt.Sprintf("k%d", i), fmt.Sprintf("value-of-inert-%d", i)
+				ac.StorageDict[k] = types.ByteSequence(v)
+				items, octets = items+1, octets+34+uint64(len(k))+uint64(len(v))
+			}
+			ac.ServiceInfo = types.ServiceInfo{CodeHash: noCode, Balance: types.U64(100 + 10*items + octets + uint64(i)), MinItemGas: 10, MinMemoGas: 10, Items: types.U32(items), Bytes: types.U64(octets),
+				CreationSlot: types.TimeSlot(i), ParentService: types.ServiceID(i)}
+			st.Delta[id] = ac
+			if i%3 == 0 {
+				st.Pi.Services[id] = types.ServiceActivityRecord{ProvidedCount: types.U16(i), ProvidedSize: types.U32(i * 1000), AccumulateCount: types.U32(i), AccumulateGasUsed: types.Gas(i) << 30}
+			}
+		}
+		// long judgement lists (sorted, as the transition keeps them)
+		nj := []int{40, 255, 256, 300}[t.Choose(4, "populous_judgements")]
+		for i := 0; i < nj; i++ {
+			st.Psi.Good = append(st.Psi.Good, types.WorkReportHash(h256([]byte{byte(i), byte(i >> 8), 0x60})))
+			st.Psi.Bad = append(st.Psi.Bad, types.WorkReportHash(h256([]byte{byte(i), byte(i >> 8), 0xBA})))
+			st.Psi.Wonky = append(st.Psi.Wonky, types.WorkReportHash(h256([]byte{byte(i), byte(i >> 8), 0x30})))
+		}
+		for _, l := range []*[]types.WorkReportHash{&st.Psi.Good, &st.Psi.Bad, &st.Psi.Wonky} {
+			sort.Slice(*l, func(a, b int) bool { return bytes.Compare((*l)[a][:], (*l)[b][:]) < 0 })
+		}
 	}
 	st.Chi.Bless, st.Chi.Designate, st.Chi.CreateAcct = g.svcIDs[0], g.svcIDs[0], g.svcIDs[0]
 	// an always-accumulate service runs in every block, with or without work items (its gas allowance may be large)
